@@ -294,6 +294,43 @@ func check(c Case) (o ev.Outcome) {
 			}
 		}
 	}
+	if len(users) > 0 && len(users) < len(files) {
+		// --path: the importers lie in one directory, every other text in a directory of its own below another one;
+		// the command walks that one (PathsWithModules) and what the imports fetch follows the order of the walk.
+		// The directory names are such that the order of the walk is not the order of the names' lengths or dates.
+		split := filepath.Join(dir, "split")
+		udir, pdir := filepath.Join(split, "u"), filepath.Join(split, "p")
+		os.MkdirAll(udir, 0o755)
+		k := 0
+		for _, sc := range c.Sources {
+			if strings.HasPrefix(sc.Name, "user") {
+				os.WriteFile(filepath.Join(udir, sc.Name), []byte(sc.Text), 0o644)
+				continue
+			}
+			d := filepath.Join(pdir, []string{"m", "b/x", "z", "b/a", "a", "y/y/y"}[k%6])
+			k++
+			os.MkdirAll(d, 0o755)
+			os.WriteFile(filepath.Join(d, sc.Name), []byte(sc.Text), 0o644)
+		}
+		o.Class("cli-path-walk")
+		for _, format := range []string{"tree", "types"} {
+			var firstOut string
+			for i := 0; i < 8; i++ {
+				cmd := exec.Command(cli, append([]string{"--path", pdir, "--format", format}, users...)...)
+				cmd.Dir = udir
+				var out, errb bytes.Buffer
+				cmd.Stdout, cmd.Stderr = &out, &errb
+				err := cmd.Run()
+				res := fmt.Sprintf("exit=%v\nstdout:\n%s\nstderr:\n%s", err, out.String(), errb.String())
+				if i == 0 {
+					firstOut = res
+				} else if res != firstOut {
+					o.Violate("cli-reproducible", "C05/cli-output-varies/path-walk-"+format, "goyang --path p --format %s %v, texts spread over sub-directories of p: run %d differs from run 0:\n%.600s\n--- vs ---\n%.600s", format, users, i, res, firstOut)
+					return
+				}
+			}
+		}
+	}
 	for _, v := range variants {
 		format := v.name
 		var firstOut string
